@@ -391,11 +391,18 @@ func flushXproc() *core.Violation {
 	outp := filepath.Join(dir, fmt.Sprintf("xproc-out-%d.json", xprocBatches))
 	b, _ := json.Marshal(xbatch)
 	os.WriteFile(in, b, 0o644)
-	defer os.Remove(in)
-	defer os.Remove(outp)
+	if os.Getenv("C15_KEEP_XPROC") == "" {
+		defer os.Remove(in)
+		defer os.Remove(outp)
+	}
 	cmd := exec.Command(os.Args[0], "-test.run", "^$")
-	procs := []string{"1", "4", "16"}[xprocBatches%3]
-	cmd.Env = append(os.Environ(), "VERIF_XPROC_IN="+in, "VERIF_XPROC_OUT="+outp, "GOMAXPROCS="+procs, "GOGC="+[]string{"20", "off", "100"}[xprocBatches%3], "VERIF_XPROC=")
+	variant := xprocBatches % 3
+	if v := os.Getenv("VERIF_XPROC_VARIANT"); v != "" {
+		fmt.Sscan(v, &variant)
+		variant %= 3
+	}
+	procs := []string{"1", "4", "16"}[variant]
+	cmd.Env = append(os.Environ(), "VERIF_XPROC_IN="+in, "VERIF_XPROC_OUT="+outp, "GOMAXPROCS="+procs, "GOGC="+[]string{"20", "off", "100"}[variant], "VERIF_XPROC=")
 	xprocBatches++
 	if err := cmd.Run(); err != nil {
 		return &core.Violation{Property: P, Key: "xproc-child-failed", Detail: "cross-process child failed: " + err.Error(), NoShrink: true}
